@@ -100,7 +100,7 @@ pub fn exec(body: &str, emit: &mut dyn FnMut(&str)) {
     let n = gates.len();
     *CTL.lock().unwrap() = Some(Ctl { sched: gates, next: 0, arrived: vec![false; n] });
     verif::set_pause_hook(Some(gate));
-    let budget = if late { Duration::from_millis(100) } else { Duration::from_millis(1500) };
+    let budget = if late { Duration::from_millis(100) } else { Duration::from_millis(3000) };
     let waiter = std::thread::spawn(move || {
         let p: &CoroutinePool<'static> = unsafe { &*(addr as *const CoroutinePool<'static>) };
         gate("s");
@@ -120,9 +120,9 @@ pub fn exec(body: &str, emit: &mut dyn FnMut(&str)) {
         Err(std::io::ErrorKind::TimedOut) => "timeout".into(),
         Err(_) => "failed".into(),
     };
-    // prompt: returned within 400 ms of whichever came later, its own start or the completion
+    // prompt: returned within 1.5 s (of a 3 s budget) of whichever came later, its own start or the completion
     let reference = if done_at > t0 { done_at } else { t0 };
-    let prompt = t1.saturating_duration_since(reference) < Duration::from_millis(400);
+    let prompt = t1.saturating_duration_since(reference) < Duration::from_millis(1500);
     // in the `late` mode the result must still be there afterwards
     let after = if late { match pool.try_take_task_result(id) { Some(Ok(Some(v))) => format!(" later=Ok({v})"), Some(Err(m)) => format!(" later=Err({})", m.replace(' ', "_")), Some(Ok(None)) => " later=Ok(none)".into(), None => " later=none".into() } } else { String::new() };
     emit(&format!("res={res} prompt={}{after}", if prompt { 1 } else { 0 }));
@@ -142,7 +142,7 @@ fn exec_steal(outcome: &str, emit: &mut dyn FnMut(&str)) {
     let ran_by_other = RAN.load(Ordering::SeqCst);
     let t0 = Instant::now();
     let _ = a.try_schedule_task();
-    let r = a.wait_task_result(id, Duration::from_millis(200));
+    let r = a.wait_task_result(id, Duration::from_millis(1000));
     let res = match r.map(|x| x.map_err(|m| m.to_string())).map_err(|e| e.kind()) {
         Ok(Ok(Some(v))) => format!("Ok({v})"),
         Ok(Ok(None)) => "Ok(none)".into(),
@@ -150,7 +150,7 @@ fn exec_steal(outcome: &str, emit: &mut dyn FnMut(&str)) {
         Err(std::io::ErrorKind::TimedOut) => "timeout".into(),
         Err(_) => "failed".into(),
     };
-    let prompt = t0.elapsed() < Duration::from_millis(150);
+    let prompt = t0.elapsed() < Duration::from_millis(700);
     let other = match b.try_take_task_result(id) { Some(Ok(Some(v))) => format!("Ok({v})"), Some(Err(m)) => format!("Err({})", m.replace(' ', "_")), Some(Ok(None)) => "Ok(none)".into(), None => "none".into() };
     emit(&format!("res={res} prompt={} ran={} stolen={} other={other}", if prompt { 1 } else { 0 }, if RAN.load(Ordering::SeqCst) { 1 } else { 0 }, if ran_by_other { 1 } else { 0 }));
 }
